@@ -63,6 +63,14 @@ impl Generator {
         }
 
         // at this point, stack has no MARKs, just regular items
+        // TUPLE2/TUPLE3 are protocol 2 opcodes: protocols 0 and 1 can only
+        // discard the surplus items
+        if self.state.version < Version::V2 {
+            while self.state.stack.len() > 1 {
+                self.emit_opcode(Pop);
+            }
+        }
+
         // keep combining until we have exactly 1 item
         // use TUPLE2/TUPLE3 which don't require MARKs
         let mut safety_counter = 0;
